@@ -4,16 +4,16 @@ package ytypes
 // (it is never part of /repo). It empties the global regexp cache under the cache's own
 // write locks, so that the cache-miss / insert path runs under contention instead of once
 // per process. It only deletes entries: the maps themselves stay in place, which is what
-// the cache's locking discipline protects.
+// the cache's locking discipline protects. The maps are emptied with clear(), not with a
+// range loop: a loop would go through the map-order seam and draw as many permutation values
+// from the calling task's stream as the cache happens to hold entries, and the cache's
+// content differs between a task's solo reference run and its interleaved run (a harness
+// artefact met once: an error text assembled in map order then differed between the two).
 func VerifEvictRegexpCache() {
 	reCache.posixMu.Lock()
-	for k := range reCache.posix {
-		delete(reCache.posix, k)
-	}
+	clear(reCache.posix)
 	reCache.posixMu.Unlock()
 	reCache.re2Mu.Lock()
-	for k := range reCache.re2 {
-		delete(reCache.re2, k)
-	}
+	clear(reCache.re2)
 	reCache.re2Mu.Unlock()
 }
